@@ -3,6 +3,7 @@ import ClusterVerif.Model.C10Source
 import ClusterVerif.Gen.C10
 import ClusterVerif.Lemmas.C04
 import ClusterVerif.Lemmas.C10
+import ClusterVerif.Lemmas.C10Dist
 import Batteries.Data.Nat.Bitwise.Lemmas
 import Mathlib.Data.List.Basic
 
@@ -1142,5 +1143,132 @@ theorem gen_source_isClosest : Gen.isClosest = Expected.isClosest := rfl
 theorem gen_source_convertPeerID : Gen.convertPeerID = Expected.convertPeerID := rfl
 theorem gen_source_convertKey : Gen.convertKey = Expected.convertKey := rfl
 
+
+
+/-! ## Byte level of the distance checker (util.go): `distance` arrays, `xor`, `bytes.Compare`, the per-checker cache -/
+section ByteLevel
+open CV.C10.Dist
+
+/-- `xor()` on two equal-length byte arrays, read big-endian, is Nat `^^^` of the two values -/
+theorem bytes_xor_is_numeric_xor (a b : Bytes) (hl : a.length = b.length) (ha : isBytes a = true) (hb : isBytes b = true) :
+    beVal (xorB a b) = beVal a ^^^ beVal b := beVal_xorB a b hl ha hb
+
+/-- `bytes.Compare` on two equal-length byte arrays is the numeric order of their big-endian values (all three outcomes) -/
+theorem bytes_compare_is_numeric_order (a b : Bytes) (hl : a.length = b.length) (ha : isBytes a = true) (hb : isBytes b = true) :
+    cmpB a b = if beVal a < beVal b then .lt else if beVal a > beVal b then .gt else .eq := cmpB_eq a b hl ha hb
+
+example : cmpB [0x7f, 0xff] [0x80, 0x00] = .lt ∧ beVal [0x7f, 0xff] = 32767 ∧ beVal (xorB [0x7f, 0xff] [0x80, 0x00]) = 65535 := by decide
+
+/-- the big-endian value is injective on byte strings of one length: distinct arrays are distinct numbers -/
+theorem beVal_injective (a b : Bytes) (hl : a.length = b.length) (ha : isBytes a = true) (hb : isBytes b = true)
+    (hv : beVal a = beVal b) : a = b := by
+  induction a generalizing b with
+  | nil => cases b with
+    | nil => rfl
+    | cons y ys => simp at hl
+  | cons x xs ih =>
+    cases b with
+    | nil => simp at hl
+    | cons y ys =>
+      obtain ⟨_, hxs⟩ := (isBytes_cons x xs).1 ha
+      obtain ⟨_, hys⟩ := (isBytes_cons y ys).1 hb
+      have hl' : xs.length = ys.length := by simpa using hl
+      have hc := cmpB_eq (x :: xs) (y :: ys) hl ha hb
+      simp only [hv, Nat.lt_irrefl, gt_iff_lt, if_false] at hc
+      simp only [cmpB] at hc
+      by_cases hxy : x < y
+      · simp [hxy] at hc
+      · by_cases hyx : y < x
+        · simp [hxy, hyx] at hc
+        · have he : x = y := by omega
+          subst he
+          have h1 := beVal_lt xs hxs
+          simp only [beVal, hl'] at hv
+          rw [ih ys hl' hxs hys (by omega)]
+
+/-- ONE call of `isClosest` on a checker whose cache holds only what the checker stored itself: the answer is the cache-free
+    one, and the cache stays consistent -/
+theorem isClosestB_cache_transparent (hashFn : Nat → Bytes) (c : Cache) (self : Nat) (os : List Nat) (ch : Bytes)
+    (hc : Consistent hashFn c) :
+    (isClosestB hashFn c self os ch).1 = isClosestPure hashFn self os ch ∧ Consistent hashFn (isClosestB hashFn c self os ch).2 := by
+  obtain ⟨h1, h2⟩ := convertPeerID_spec hashFn c self hc
+  unfold isClosestB isClosestPure
+  simp only
+  rw [h1]
+  exact scan_spec hashFn ch _ os _ h2
+
+/-- a whole run of the handler (any number of cids asked on the same checker, cache shared): every answer is the cache-free one.
+    The per-checker cache never changes who is closest. -/
+theorem isClosestSeq_cache_transparent (hashFn : Nat → Bytes) (self : Nat) (os : List Nat) (hs : List Bytes) (c : Cache)
+    (hc : Consistent hashFn c) :
+    (isClosestSeq hashFn c self os hs).1 = hs.map (isClosestPure hashFn self os) ∧
+    Consistent hashFn (isClosestSeq hashFn c self os hs).2 := by
+  induction hs generalizing c with
+  | nil => exact ⟨rfl, hc⟩
+  | cons h hs ih =>
+    obtain ⟨h1, h2⟩ := isClosestB_cache_transparent hashFn c self os h hc
+    obtain ⟨h3, h4⟩ := ih _ h2
+    simp only [isClosestSeq, List.map_cons]
+    exact ⟨by rw [h1, h3], h4⟩
+
+/-- the empty cache (what `distances()` builds) is consistent -/
+theorem empty_cache_consistent (hashFn : Nat → Bytes) : Consistent hashFn [] := by
+  intro id h hg
+  simp [Cache.get, C04.lookup] at hg
+
+example : (isClosestSeq (fun p => [p, 7]) [] 1 [2, 3] [[0, 0], [3, 3], [2, 0]]).1 = [true, false, false] := by decide
+
+/-- … and it has to be: a cache holding a foreign value (e.g. a "cached distance" instead of the hash, or an entry stored under
+    the wrong peer) changes the answer. -/
+theorem poisoned_cache_changes_answer :
+    ¬ (∀ (hashFn : Nat → Bytes) (c : Cache) (self : Nat) (os : List Nat) (ch : Bytes),
+        (isClosestB hashFn c self os ch).1 = isClosestPure hashFn self os ch) := by
+  intro h
+  have := h (fun p => [p]) [(1, [9])] 1 [2] [0]
+  revert this
+  decide
+
+/-- **bridge**: the byte-level answer of the code is the answer of the Nat-level model (`isClosest`, about which
+    `closest_at_most_one` / `closest_exists` and all round theorems speak) when the world's hashes are the big-endian values of the
+    arrays. Replaces the trusted "hashes are passed to the model as numbers". -/
+theorem isClosestPure_eq_model (w : World) (hashFn : Nat → Bytes) (self : Nat) (ex : Option Nat) (c : Nat) (ch : Bytes) (L : Nat)
+    (hh : ∀ p, (hashFn p).length = L ∧ isBytes (hashFn p) = true) (hcl : ch.length = L) (hcb : isBytes ch = true)
+    (hw : ∀ p, w.peerHash p = beVal (hashFn p)) (hcw : w.hashOf c = beVal ch) :
+    isClosestPure hashFn self (others w self ex) ch = isClosest w self ex c := by
+  unfold isClosestPure isClosest
+  apply List.all_congr rfl
+  intro p
+  have l1 : (xorB ch (hashFn self)).length = (xorB (hashFn p) ch).length := by
+    rw [length_xorB _ _ (by rw [hcl, (hh self).1]), length_xorB _ _ (by rw [hcl, (hh p).1]), hcl, (hh p).1]
+  rw [cmpB_gt_iff _ _ l1 (isBytes_xorB _ _ hcb (hh self).2) (isBytes_xorB _ _ (hh p).2 hcb),
+    beVal_xorB _ _ (by rw [hcl, (hh self).1]) hcb (hh self).2, beVal_xorB _ _ (by rw [hcl, (hh p).1]) (hh p).2 hcb,
+    hw self, hw p, hcw, Nat.xor_comm (beVal ch)]
+
+/-- with the real cache: what the code answers during a whole run = the Nat-level model, cid by cid -/
+theorem isClosestB_eq_model (w : World) (hashFn : Nat → Bytes) (cache : Cache) (self : Nat) (ex : Option Nat) (c : Nat) (ch : Bytes) (L : Nat)
+    (hc : Consistent hashFn cache)
+    (hh : ∀ p, (hashFn p).length = L ∧ isBytes (hashFn p) = true) (hcl : ch.length = L) (hcb : isBytes ch = true)
+    (hw : ∀ p, w.peerHash p = beVal (hashFn p)) (hcw : w.hashOf c = beVal ch) :
+    (isClosestB hashFn cache self (others w self ex) ch).1 = isClosest w self ex c := by
+  rw [(isClosestB_cache_transparent hashFn cache self _ ch hc).1]
+  exact isClosestPure_eq_model w hashFn self ex c ch L hh hcl hcb hw hcw
+
+/-! ### what realistic wrong edits of util.go do to "exactly one member is closest" (32-byte hashes, pairwise distinct) -/
+
+def hA : Bytes := List.replicate 31 0 ++ [1]
+def hB : Bytes := List.replicate 31 0 ++ [2]
+def hC : Bytes := List.replicate 32 0
+def twoPeers : Nat → Bytes := fun p => if p == 1 then hA else hB
+
+/-- comparing only a prefix of the distance (the first 8 bytes "as one uint64"): two members with distinct hashes both closest -/
+theorem prefix_compare_two_closest :
+    hA ≠ hB ∧ isClosestPrefix 8 twoPeers 1 [2] hC = true ∧ isClosestPrefix 8 twoPeers 2 [1] hC = true ∧
+    ¬ (isClosestPure twoPeers 1 [2] hC = true ∧ isClosestPure twoPeers 2 [1] hC = true) := by decide
+
+/-- an `xor` that stops one byte early: again two members with distinct hashes both closest -/
+theorem short_xor_two_closest :
+    hA ≠ hB ∧ isClosestShortXor twoPeers 1 [2] hC = true ∧ isClosestShortXor twoPeers 2 [1] hC = true := by decide
+
+end ByteLevel
 
 end CV.C10
